@@ -1035,26 +1035,84 @@ package compose
 //@   trusted runs the graph-level error callbacks (user handlers)
 //@   ensures[err] result1 != nil
 
+//@ spec tmOK(t *taskManager) bool = t != nil && t.l != nil && t.runWrapper != nil
+//@ spec runnableTask(x *task) bool = x != nil && x.call != nil && x.call.action != nil
+
+//@ func (*taskManager).updateChan
+//@   props C03
+//@   requires t != nil && t.l != nil
+//@   requires[list_under_lock] @C03 held(t.mu)
+//@   modifies nothing()
+//@   after call t.l.Front: assume result != nil && is(result.Value, "*task")
+//@   ensures[still_locked] held(t.mu)
+//@   loop 1:
+//@     modifies nothing()
+//@   note moves finished tasks from the overflow list to the 1-slot channel while it has room; the list and the channel are external / ghost objects (container/list, chan): their contents are not modelled
+
+//@ func (*taskManager).executor
+//@   props C03 C13
+//@   nopanic
+//@   requires tmOK(t) && runnableTask(currentTask) && optsOK(t.opts)
+//@   requires[lock_free] !held(t.mu)
+//@   modifies currentTask.output, currentTask.err, lock(t.mu)
+//@   ghost pushed int = 0
+//@   at call t.l.PushBack: assert[push_under_lock] @C03 held(t.mu)
+//@   at call t.l.PushBack: assert[push_own_task] @C03 arg0 == box(currentTask)
+//@   at call t.l.PushBack: ghost pushed++
+//@   ensures[reported_once] @C03 pushed == 1
+//@   ensures[released] @C03 !held(t.mu)
+
 //@ func (*taskManager).submit
 //@   props C03 C11
-//@   trusted the concurrent task protocol is the subject of C03 (not yet under contract): pre-processors run, every task is started exactly once; the ghost set "submitted" records the tasks handed over
-//@   requires t != nil && forall(i int :: 0 <= i && i < len(tasks) ==> tasks[i] != nil && tasks[i].call != nil)
-//@   modifies t.num, region("F|compose.task|input"), gset("submitted")
-//@   ensures[submitted] forall(x *task :: gset("submitted", x) == (old(gset("submitted", x)) || exists(i int :: 0 <= i && i < len(tasks) && tasks[i] == x)))
-//@ func (*taskManager).wait
-//@   props C03
-//@   trusted see submit: returns tasks that were submitted, with their outputs (streams in stream mode: runnableTransform returns a stream reader)
-//@   requires t != nil
-//@   modifies t.num, region("F|compose.task|output"), region("F|compose.task|err")
-//@   ensures[tasks] result1 == nil && forall(i int :: 0 <= i && i < len(result0) ==> result0[i] != nil && gset("submitted", result0[i])) && (result0 == nil || fresh(result0))
-//@   ensures[stream_kind] t.runWrapper == runnableTransform ==> forall(i int :: 0 <= i && i < len(result0) && result0[i].err == nil ==> is(result0[i].output, "streamReader"))
+//@   requires tmOK(t) && optsOK(t.opts) && forall(i int :: 0 <= i && i < len(tasks) ==> runnableTask(tasks[i]))
+//@   requires[lock_free] !held(t.mu)
+//@   modifies t.num, region("F|compose.task|input"), region("F|compose.task|output"), region("F|compose.task|err"), gset("submitted"), lock(t.mu)
+//@   ghost started int = 0
+//@   at call t.runWrapper: assert[pre_handlers_first] @C11 started == 0
+//@   at call t.executor: ghost started++
+//@   at call t.executor: gadd submitted arg0
+//@   ensures[submitted] result == nil ==> forall(x *task :: gset("submitted", x) == (old(gset("submitted", x)) || exists(i int :: 0 <= i && i < len(tasks) && tasks[i] == x)))
+//@   ensures[all_started_once] @C03 result == nil ==> started == len(tasks) && t.num == old(t.num) + len(tasks)
+//@   ensures[none_started_on_error] @C03 result != nil ==> started == 0 && t.num == old(t.num) && forall(x *task :: gset("submitted", x) == old(gset("submitted", x)))
+//@   loop 1:
+//@     modifies region("F|compose.task|input")
+//@     invariant[nothing_started] started == 0 && t.num == old(t.num) && !held(t.mu)
+//@     invariant[set] forall(x *task :: gset("submitted", x) == old(gset("submitted", x)))
+//@   loop 2:
+//@     modifies t.num, region("F|compose.task|output"), region("F|compose.task|err"), gset("submitted"), lock(t.mu)
+//@     invariant[count] started == $i && t.num == old(t.num) + $i && !held(t.mu)
+//@     invariant[set] forall(x *task :: gset("submitted", x) == (old(gset("submitted", x)) || exists(i int :: len(old(tasks)) - len(tasks) <= i && i < len(old(tasks)) - len(tasks) + $i && old(tasks)[i] == x)))
+
+//@ func (*taskManager).waitOne
+//@   props C03 C11
+//@   requires tmOK(t)
+//@   recv t.done: assume runnableTask(value)
+//@   at call t.runWrapper: assert[post_handler_only_on_success] @C11 ta.err == nil
+//@   requires[lock_free] !held(t.mu)
+//@   modifies t.num, region("F|compose.task|output"), region("F|compose.task|err"), lock(t.mu)
+//@   ensures[none_outstanding] @C03 old(t.num) == 0 ==> !result1 && result0 == nil && t.num == 0
+//@   ensures[one_collected] @C03 old(t.num) > 0 ==> result1 && t.num == old(t.num) - 1
+//@   ensures[released] !held(t.mu)
+
 //@ func (*taskManager).waitAll
 //@   props C03
-//@   trusted see wait
-//@   requires t != nil
-//@   modifies t.num, region("F|compose.task|output"), region("F|compose.task|err")
-//@   ensures[tasks] result1 == nil && forall(i int :: 0 <= i && i < len(result0) ==> result0[i] != nil && gset("submitted", result0[i])) && (result0 == nil || fresh(result0))
-//@   ensures[stream_kind] t.runWrapper == runnableTransform ==> forall(i int :: 0 <= i && i < len(result0) && result0[i].err == nil ==> is(result0[i].output, "streamReader"))
+//@   requires tmOK(t)
+//@   requires[lock_free] !held(t.mu)
+//@   modifies t.num, region("F|compose.task|output"), region("F|compose.task|err"), lock(t.mu), fresh()
+//@   ensures[drained] @C03 result1 == nil && t.num == 0 && len(result0) == old(t.num)
+//@   ensures[released] !held(t.mu)
+//@   loop 1:
+//@     modifies t.num, region("F|compose.task|output"), region("F|compose.task|err"), lock(t.mu), fresh()
+//@     invariant[account] len(result) + t.num == old(t.num) && t.num >= 0 && !held(t.mu) && (result == nil || fresh(result))
+
+//@ func (*taskManager).wait
+//@   props C03
+//@   requires tmOK(t)
+//@   requires[lock_free] !held(t.mu)
+//@   modifies t.num, region("F|compose.task|output"), region("F|compose.task|err"), lock(t.mu), fresh()
+//@   ensures[batch] @C03 t.needAll ==> t.num == 0 && len(result0) == old(t.num)
+//@   ensures[eager] @C03 !t.needAll ==> (old(t.num) == 0 ==> len(result0) == 0 && t.num == 0) && (old(t.num) > 0 ==> len(result0) == 1 && t.num == old(t.num) - 1)
+//@   ensures[no_error] result1 == nil
 
 //@ func (*checkPointer).restoreCheckPoint
 //@   trusted converts checkpointed values back to streams in stream mode (C05, C12)
@@ -1192,3 +1250,86 @@ package compose
 //@     invariant[trie_shape] trieShape()
 //@     invariant[entries_kept] forall(mm map[string]any, k string :: !fresh(mm) && old(in(k, mm)) ==> in(k, mm) && mm[k] == old(mm[k]))
 //@     invariant[at_root] $i == 0 ==> m == trieRoot(n)
+
+// ---------------------------------------------------------------------------------------------------
+// state.go — graph state is accessed under its mutex (C11)
+// ---------------------------------------------------------------------------------------------------
+
+//@ spec stateOf(ctx context.Context) *internalState = unbox(ctxValue(ctx, "stateKey"), "*internalState")
+
+//@ func getState
+//@   props C11
+//@   requires ctxOK(ctx)
+//@   requires[state_key_private] ctxValue(ctx, "stateKey") == nil || (is(ctxValue(ctx, "stateKey"), "*internalState") && stateOf(ctx) != nil)
+//@   ensures[no_state] ctxValue(ctx, "stateKey") == nil ==> result2 != nil
+//@   ensures[mutex_of_state] result2 == nil ==> ctxValue(ctx, "stateKey") != nil && result1 == addr(stateOf(ctx).mu)
+//@   ensures[no_mutex_on_error] result2 != nil ==> result1 == nil
+//@   ensures[locks_untouched] forall(m *sync.Mutex :: held(m) == old(held(m)))
+
+//@ func ProcessState
+//@   props C11
+//@   requires ctxOK(ctx)
+//@   requires[state_key_private] ctxValue(ctx, "stateKey") == nil || (is(ctxValue(ctx, "stateKey"), "*internalState") && stateOf(ctx) != nil)
+//@   requires[not_reentrant] ctxValue(ctx, "stateKey") != nil ==> !held(stateOf(ctx).mu)
+//@   requires handler != nil
+//@   at call handler: assert[exclusive] @C11 held(stateOf(ctx).mu)
+//@   ensures[released] @C11 ctxValue(ctx, "stateKey") != nil ==> !held(stateOf(ctx).mu)
+//@   ensures[no_state] ctxValue(ctx, "stateKey") == nil ==> result != nil
+//@   ensures[other_locks_untouched] forall(m *sync.Mutex :: ctxValue(ctx, "stateKey") == nil || m != addr(stateOf(ctx).mu) ==> held(m) == old(held(m)))
+
+//@ func convertPreHandler$1
+//@   props C11
+//@   requires ctxOK(ctx)
+//@   requires[state_key_private] ctxValue(ctx, "stateKey") == nil || (is(ctxValue(ctx, "stateKey"), "*internalState") && stateOf(ctx) != nil)
+//@   requires[not_reentrant] ctxValue(ctx, "stateKey") != nil ==> !held(stateOf(ctx).mu)
+//@   requires handler != nil
+//@   at call handler: assert[exclusive] @C11 held(stateOf(ctx).mu)
+//@   ensures[released] @C11 ctxValue(ctx, "stateKey") != nil ==> !held(stateOf(ctx).mu)
+//@   ensures[no_state] ctxValue(ctx, "stateKey") == nil ==> result1 != nil
+//@   ensures[other_locks_untouched] forall(m *sync.Mutex :: ctxValue(ctx, "stateKey") == nil || m != addr(stateOf(ctx).mu) ==> held(m) == old(held(m)))
+
+//@ func convertPostHandler$1
+//@   props C11
+//@   requires ctxOK(ctx)
+//@   requires[state_key_private] ctxValue(ctx, "stateKey") == nil || (is(ctxValue(ctx, "stateKey"), "*internalState") && stateOf(ctx) != nil)
+//@   requires[not_reentrant] ctxValue(ctx, "stateKey") != nil ==> !held(stateOf(ctx).mu)
+//@   requires handler != nil
+//@   at call handler: assert[exclusive] @C11 held(stateOf(ctx).mu)
+//@   ensures[released] @C11 ctxValue(ctx, "stateKey") != nil ==> !held(stateOf(ctx).mu)
+//@   ensures[no_state] ctxValue(ctx, "stateKey") == nil ==> result1 != nil
+//@   ensures[other_locks_untouched] forall(m *sync.Mutex :: ctxValue(ctx, "stateKey") == nil || m != addr(stateOf(ctx).mu) ==> held(m) == old(held(m)))
+
+//@ func streamConvertPreHandler$1
+//@   props C11
+//@   requires ctxOK(ctx)
+//@   requires[state_key_private] ctxValue(ctx, "stateKey") == nil || (is(ctxValue(ctx, "stateKey"), "*internalState") && stateOf(ctx) != nil)
+//@   requires[not_reentrant] ctxValue(ctx, "stateKey") != nil ==> !held(stateOf(ctx).mu)
+//@   requires handler != nil
+//@   at call handler: assert[exclusive] @C11 held(stateOf(ctx).mu)
+//@   ensures[released] @C11 ctxValue(ctx, "stateKey") != nil ==> !held(stateOf(ctx).mu)
+//@   ensures[no_state] ctxValue(ctx, "stateKey") == nil ==> result1 != nil
+//@   ensures[other_locks_untouched] forall(m *sync.Mutex :: ctxValue(ctx, "stateKey") == nil || m != addr(stateOf(ctx).mu) ==> held(m) == old(held(m)))
+
+//@ func streamConvertPostHandler$1
+//@   props C11
+//@   requires ctxOK(ctx)
+//@   requires[state_key_private] ctxValue(ctx, "stateKey") == nil || (is(ctxValue(ctx, "stateKey"), "*internalState") && stateOf(ctx) != nil)
+//@   requires[not_reentrant] ctxValue(ctx, "stateKey") != nil ==> !held(stateOf(ctx).mu)
+//@   requires handler != nil
+//@   at call handler: assert[exclusive] @C11 held(stateOf(ctx).mu)
+//@   ensures[released] @C11 ctxValue(ctx, "stateKey") != nil ==> !held(stateOf(ctx).mu)
+//@   ensures[no_state] ctxValue(ctx, "stateKey") == nil ==> result1 != nil
+//@   ensures[other_locks_untouched] forall(m *sync.Mutex :: ctxValue(ctx, "stateKey") == nil || m != addr(stateOf(ctx).mu) ==> held(m) == old(held(m)))
+
+//@ func GetState
+//@   props C11
+//@   requires ctxOK(ctx)
+//@   requires[state_present] is(ctxValue(ctx, "stateKey"), "*internalState") && stateOf(ctx) != nil && !held(stateOf(ctx).mu)
+//@   ensures[released] @C11 !held(stateOf(ctx).mu)
+
+//@ func (*graph).compile$1
+//@   props C11
+//@   requires ctxOK(ctx) && g != nil && g.stateGenerator != nil
+//@   ensures[own_state] @C11 is(ctxValue(result, "stateKey"), "*internalState") && fresh(stateOf(result)) && stateOf(result) != nil
+//@   ensures[unlocked] @C11 !held(stateOf(result).mu)
+//@   ensures[others_kept] ctxValue(result, "nodePathKey") == ctxValue(ctx, "nodePathKey") && ctxValue(result, "checkPointKey") == ctxValue(ctx, "checkPointKey")
